@@ -748,6 +748,11 @@ class Interp:
                     return getattr(base, m)(*args, **kwargs)
                 except (ValueError, TypeError) as e:
                     raise Raised(type(e).__name__, "", n)
+            if isinstance(base, bytes) and m in ("decode", "hex", "replace", "startswith", "endswith", "lower", "upper", "strip", "split", "isalnum"):
+                try:
+                    return getattr(base, m)(*args, **kwargs)
+                except (ValueError, TypeError, LookupError) as e:
+                    raise Raised(type(e).__name__, "", n)
             if isinstance(base, dict) and m in ("get", "items", "values", "keys", "setdefault", "pop", "copy", "update"):
                 r = getattr(base, m)(*([self._hashable(args[0])] + list(args[1:]) if args and m != "update" else args))
                 return list(r) if m in ("items", "values", "keys") else r
